@@ -764,6 +764,42 @@ def UA(e):
     return ast.unparse(alpha_canon(e)).replace(" ", "")
 
 
+def conditional_defs(stmts):
+    """{name: value} for the plain-name assignments of a statement list, where a name bound in both arms of one `if c: x = A  else: x = B`
+    (each arm that single assignment, possibly among other assignments to other names) is given the conditional value `A if c else B` - the
+    expression form of the same definition, for rules that read definitions through"""
+    out = {}
+    for st in stmts:
+        if isinstance(st, ast.Assign) and len(st.targets) == 1 and isinstance(st.targets[0], ast.Name):
+            out[st.targets[0].id] = st.value
+        elif isinstance(st, ast.If) and st.orelse:
+            a = {x.targets[0].id: x.value for x in st.body if isinstance(x, ast.Assign) and len(x.targets) == 1 and isinstance(x.targets[0], ast.Name)}
+            b = {x.targets[0].id: x.value for x in st.orelse if isinstance(x, ast.Assign) and len(x.targets) == 1 and isinstance(x.targets[0], ast.Name)}
+            if all(isinstance(x, ast.Assign) for x in st.body + st.orelse):
+                for k in set(a) & set(b):
+                    out[k] = ast.IfExp(test=st.test, body=a[k], orelse=b[k])
+    return out
+
+
+def with_conditional_values(fnode):
+    """a copy of the function in which  `if c: x = A  else: x = B`  (each arm that one plain assignment to the same name) is written
+    `x = A if c else B` - the expression form, for rules whose readers work on values (the engine's canonical form is the statement)"""
+    import copy
+    fnode = copy.deepcopy(fnode)
+
+    class T(ast.NodeTransformer):
+        def visit_If(self, n):
+            self.generic_visit(n)
+            if len(n.body) == 1 and len(n.orelse) == 1:
+                a, b = n.body[0], n.orelse[0]
+                if isinstance(a, ast.Assign) and isinstance(b, ast.Assign) and len(a.targets) == 1 and len(b.targets) == 1 and isinstance(a.targets[0], ast.Name) \
+                        and isinstance(b.targets[0], ast.Name) and a.targets[0].id == b.targets[0].id:
+                    return ast.copy_location(ast.Assign(targets=[a.targets[0]], value=ast.IfExp(test=n.test, body=a.value, orelse=b.value), lineno=n.lineno), n)
+            return n
+    fnode.body = [T().visit(st) for st in fnode.body]
+    return ast.fix_missing_locations(fnode)
+
+
 def argv(c):
     """the arguments of a call in written order, positional ones first then keyword values.  After engine.normalize.keywordise_calls a call
     of a known repository callable carries its former positional arguments as leading keywords in parameter order, so argv(c)[i] is what
